@@ -1,4 +1,6 @@
 //! Protocol-level models: ledger, history interpreter, fault alphabet, forger.
+#[cfg(feature = "full")]
 pub mod forger;
+#[cfg(feature = "full")]
 pub mod history;
 pub mod proto;
